@@ -147,7 +147,7 @@ func JSONEqual(a, b []byte) bool {
 // StringTricky generates valid UTF-8 strings of the interesting classes.
 func StringTricky() *rapid.Generator[string] {
 	return rapid.OneOf(
-		rapid.SampledFrom([]string{"", "a", "foo", "\"", "\\", "\"quoted\"", "a\\b", "\n\t\r", "\x00\x01\x1f", "<>&", "  ", "é", "日本語", "😀", "\U0010FFFF", "\u007f", "a b", "{\"rid\":\"x\"}", strings.Repeat("x", 300), "</script>", "�", " "}),
+		rapid.SampledFrom([]string{"", "a", "foo", "\"", "\\", "\"quoted\"", "a\\b", "\n\t\r", "\x00\x01\x1f", "<>&", "  ", "é", "日本語", "😀", "\U0010FFFF", "\u007f", "a b", "{\"rid\":\"x\"}", "\\u003c", "a\\u0026b\\u003e", "\\\\u003c", strings.Repeat("x", 300), strings.Repeat("0123456789", 130), strings.Repeat("é~", 600), "</script>", "�", " "}),
 		rapid.StringOfN(rapid.RuneFrom([]rune("ab\"\\\n<>&é日😀\x00\x1f  {}[]:,")), 0, 12, -1),
 		rapid.String(),
 	).Filter(func(s string) bool { return isValidUTF8(s) })
